@@ -187,7 +187,7 @@ func genC18(seed uint64, run int, tier string) Scenario {
 		sc.Ops = []OpSpec{op, second, {Kind: "close"}}
 	}
 	sc.Class = "generic/callbacks"
-	sc.CutEnum = pickCutEnum(run, 6)
+	sc.CutEnum = pickCutEnum(run, 10)
 	if r.IntN(12) == 0 {
 		// sched-hold fault: the caller is descheduled, right after it started the reader, for longer
 		// than the operation's timeout, and no trigger ever holds (the callbacks wait for words the
